@@ -9,11 +9,12 @@ def main():
     ap.add_argument("--tier", default=os.environ.get("VERIF_TIER", "quick"), choices=["quick", "thorough"])
     ap.add_argument("--replay")
     ap.add_argument("--confirm", action="store_true")
+    ap.add_argument("--history", action="store_true")
     args = ap.parse_args()
     from mc import engine
 
     if args.replay:
-        sys.exit(engine.run_replay(args.property, args.replay, args.confirm))
+        sys.exit(engine.run_replay(args.property, args.replay, args.confirm, args.history))
     seed = int(os.environ.get("VERIF_SEED", "0") or 0)
     sys.exit(engine.run_check(args.property, args.tier, seed))
 
